@@ -2,6 +2,7 @@ package importer
 
 import (
 	"path/filepath"
+	"sort"
 	"strings"
 
 	"github.com/tableauio/tableau/format"
@@ -71,7 +72,7 @@ func GetScatterImporters(inputDir, primaryBookName, sheetName string, scatterSpe
 		if specifiedSheetName == "" {
 			specifiedSheetName = sheetName
 		}
-		for relBookPath := range relBookPaths {
+		for _, relBookPath := range sortedBookPaths(relBookPaths) {
 			log.Infof("%15s: %s#%s", "scatter sheet", relBookPath, specifiedSheetName)
 			fpath := filepath.Join(inputDir, relBookPath)
 			rewrittenWorkbookName := xfs.RewriteSubdir(primaryBookName, subdirRewrites)
@@ -100,7 +101,7 @@ func GetMergerImporters(inputDir, primaryBookName, sheetName string, sheetSpecif
 		if specifiedSheetName == "" {
 			specifiedSheetName = sheetName
 		}
-		for relBookPath := range relBookPaths {
+		for _, relBookPath := range sortedBookPaths(relBookPaths) {
 			log.Infof("%15s: %s#%s", "merging sheet", relBookPath, specifiedSheetName)
 			fpath := filepath.Join(inputDir, relBookPath)
 			rewrittenWorkbookName := xfs.RewriteSubdir(primaryBookName, subdirRewrites)
@@ -114,6 +115,18 @@ func GetMergerImporters(inputDir, primaryBookName, sheetName string, sheetSpecif
 	}
 
 	return importerInfos, nil
+}
+
+// sortedBookPaths returns the matched workbook paths in a stable (sorted)
+// order: the order of merged or scattered books must not depend on Go's map
+// iteration order.
+func sortedBookPaths(relBookPaths map[string]bool) []string {
+	paths := make([]string, 0, len(relBookPaths))
+	for path := range relBookPaths {
+		paths = append(paths, path)
+	}
+	sort.Strings(paths)
+	return paths
 }
 
 // ResolveSheetSpecifier resolve and return all related workbook paths.
